@@ -38,12 +38,24 @@ pub fn run(ctx: &Ctx) -> Value {
     let offs = [0, 1, -1, 3600, -3600, 86_399, -86_399];
     let mut n_add = 0;
     for (i, &x) in dts.iter().enumerate() {
-        if ctx.quick() && i % 3 != 0 && !(dn(x.date()) <= MIN_DAY + 1 || dn(x.date()) >= MAX_DAY - 1) { continue; }
+        if ctx.quick() && i % 8 != 0 && !((dn(x.date()) <= MIN_DAY + 1 || dn(x.date()) >= MAX_DAY - 1) && i % 2 == 0) { continue; }
         for d in durs_for(x, &mut rng, ctx.t(1, 6)) {
             let td = match mk_dur(d) { Some(t) => t, None => continue };
             tw.emit(ev("dt.add", json!({"dt": ndt(x), "d": big(d)}), || json!({"r": ondt(x.checked_add_signed(td))})));
             tw.emit(ev("dt.sub", json!({"dt": ndt(x), "d": big(d)}), || json!({"r": ondt(x.checked_sub_signed(td))})));
             n_add += 2;
+            if n_add % 22 == 0 {
+                tw.emit(ev("o.dt.add", json!({"dt": ndt(x), "d": big(d), "via": "add_assign"}), || { let mut y = x; y += td; json!({"r": ndt(y)}) }));
+                tw.emit(ev("o.dt.sub", json!({"dt": ndt(x), "d": big(d), "via": "sub_assign"}), || { let mut y = x; y -= td; json!({"r": ndt(y)}) }));
+                if d >= 0 { if let Ok(sd) = td.to_std() {
+                    tw.emit(ev("o.dt.add", json!({"dt": ndt(x), "d": big(d), "via": "add_std"}), || json!({"r": ndt(x + sd)})));
+                    tw.emit(ev("o.dt.sub", json!({"dt": ndt(x), "d": big(d), "via": "sub_std"}), || json!({"r": ndt(x - sd)})));
+                }}
+                let off = *rng.pick(&offs);
+                let z: DateTime<FixedOffset> = FixedOffset::east_opt(off).unwrap().from_utc_datetime(&x);
+                tw.emit(ev("o.tz.add", json!({"u": ndt(x), "off": off, "d": big(d), "via": "add_assign"}), || { let mut y = z; y += td; json!({"r": ndt(y.naive_utc())}) }));
+                tw.emit(ev("o.tz.add", json!({"u": ndt(x), "off": off, "d": big(-d), "via": "sub_op"}), || json!({"r": ndt((z - td).naive_utc())})));
+            }
             if n_add % 6 == 0 {
                 tw.emit(ev("o.dt.add", json!({"dt": ndt(x), "d": big(d)}), || json!({"r": ndt(x + td)})));
                 tw.emit(ev("o.dt.sub", json!({"dt": ndt(x), "d": big(d)}), || json!({"r": ndt(x - td)})));
@@ -99,6 +111,15 @@ pub fn run(ctx: &Ctx) -> Value {
         }
         let o = mk_date(*rng.pick(&dates));
         tw.emit(ev("date.since", json!({"a": n, "b": dn(o)}), || json!({"r": dur(d.signed_duration_since(o))})));
+        tw.emit(ev("date.since", json!({"a": n, "b": dn(o), "via": "sub_op"}), || json!({"r": dur(d - o)})));
+        // Days through the operators (documented to panic when the date leaves the range) and compound assignment
+        for k in [0u64, 1, 365, (MAX_DAY - n) as u64, (MAX_DAY - n) as u64 + 1] {
+            tw.emit(ev("o.date.add", json!({"n": n, "d": big(k as i128 * 86_400 * NS), "via": "add_days_op"}), || json!({"r": dn(d + Days::new(k))})));
+            tw.emit(ev("o.date.sub", json!({"n": n, "d": big(k as i128 * 86_400 * NS), "via": "sub_days_op"}), || json!({"r": dn(d - Days::new(k))})));
+        }
+        { let td = mk_dur(86_400 * NS * 3 + 5).unwrap();
+          tw.emit(ev("o.date.add", json!({"n": n, "d": dur(td), "via": "add_assign"}), || { let mut y = d; y += td; json!({"r": dn(y)}) }));
+          tw.emit(ev("o.date.sub", json!({"n": n, "d": dur(td), "via": "sub_assign"}), || { let mut y = d; y -= td; json!({"r": dn(y)}) })); }
         let x = d.and_hms_nano_opt(23, 59, 59, 1_999_999_999).unwrap();
         for k in [0u64, 1, (MAX_DAY - n) as u64, (MAX_DAY - n) as u64 + 1, (n - MIN_DAY) as u64, (n - MIN_DAY) as u64 + 1, u64::MAX] {
             tw.emit(ev("dtd.add_days", json!({"dt": ndt(x), "k": big(k as i128)}), || json!({"r": ondt(x.checked_add_days(Days::new(k)))})));
@@ -119,6 +140,13 @@ pub fn run(ctx: &Ctx) -> Value {
             match rng.below(4) {
                 0 => tw.emit(ev("it.hint", json!({"step": step}), || { let (lo, hi, len) = if step == 1 { let h = itd.size_hint(); (h.0, h.1.unwrap(), itd.len()) } else { let h = itw.size_hint(); (h.0, h.1.unwrap(), itw.len()) };
                         json!({"lo": lo as i64, "hi": hi as i64, "len": len as i64}) })),
+                2 if i % 5 == 2 => { // adaptors of the standard traits must agree with stepping
+                    let k = rng.range(0, 4);
+                    tw.emit(ev("it.nth", json!({"step": step, "k": k}), || json!({"r": odn(if step == 1 { itd.nth(k as usize) } else { itw.nth(k as usize) })})));
+                }
+                3 if start > MAX_DAY - 60 && i % 3 == 0 => {
+                    tw.emit(ev("it.count", json!({"step": step}), || json!({"r": (if step == 1 { itd.by_ref().count() } else { itw.by_ref().count() }) as i64})));
+                }
                 1 if i % 7 == 3 => tw.emit(ev("it.back", json!({"step": step}), || json!({"r": odn(if step == 1 { itd.next_back() } else { itw.next_back() })}))),
                 _ => tw.emit(ev("it.next", json!({"step": step}), || json!({"r": odn(if step == 1 { itd.next() } else { itw.next() })}))),
             }
